@@ -8,8 +8,6 @@ func (e *execState) checkHooksBlock(bo *blockObs, br BlockResult, fx BlockEffect
 func (e *execState) checkWriteSets(bo *blockObs)                                              {}
 func (e *execState) joinExport(bo *blockObs)                                                  {}
 func (e *execState) joinedBlock(bo *blockObs, txs [][]byte)                                   {}
-func (e *execState) checkQueries(bo *blockObs)                                                {}
-func (e *execState) enumBankFail(bi int, blk *Block, txs [][]byte)                            {}
 
 type linRecorder struct{}
 
